@@ -17,7 +17,8 @@ theorem C15_routed (reg reg' : Registry) (r : Request)
     id, xid, branch id, the matching response kind and precisely that status -/
 theorem C15_echo (reg : Registry) (r : Request) (s : Nat)
     (hh : reg.has r.branchType = true) (ha : reg.answer r.branchType r = .status s) :
-    process reg r = [{ kind := r.kind, msgId := r.msgId, xid := r.xid, branchId := r.branchId, status := s }] := by
+    process reg r =
+      [{ kind := r.kind, msgId := r.msgId, xid := r.xid, branchId := r.branchId, status := s, session := r.session }] := by
   simp [process, hh, ha]
 
 /-- when the manager fails (or none is registered) no response at all is sent — in particular none
@@ -30,6 +31,18 @@ theorem C15_never_success_on_failure (reg : Registry) (r : Request)
   · simp only [process]; split
     · simp [h]
     · rfl
+
+/-- the reply goes to the coordinator that asked: whatever the xid says and whichever sessions are open, a
+    response is written to the session its request arrived on -/
+theorem C15_answered_where_asked (reg : Registry) (r : Request) :
+    ∀ resp ∈ process reg r, resp.session = r.session := by
+  intro resp h
+  unfold process at h
+  split at h
+  · split at h
+    · simp at h; subst h; rfl
+    · simp at h
+  · simp at h
 
 /-- at most one response per request, and every response answers ITS request -/
 theorem C15_at_most_one (reg : Registry) (r : Request) :
